@@ -78,6 +78,7 @@ func verifFDContent(f *os.File) string
 func verifFDIsName(f *os.File, name string) bool
 func verifStdout() string
 func verifTempDir() string
+func verifJSONEquivalent(a, b string) bool
 func verifMaybeUnencodable() any
 func verifNameEq(a, b string) bool
 func verifNoLocksHeld() bool
